@@ -116,6 +116,8 @@ def gen(rng, thorough):
     if t in ('dup', 'comb', 'seq') and rng.random() < 0.3:
         # values near the ends of the int32 range: a sum / copy of int32 columns must still be the stated function of its sources
         d['low'] = rng.choice([2 ** 30 - 3, 1_200_000_000, 2 ** 31 - 20, -2 ** 31 + 5, -1_500_000_000, 2 ** 29])
+    if t == 'noisecat' and rng.random() < 0.3:
+        d['low'] = rng.choice([-20, -3, -1, -200])          # domains with negative codes (not for missing-type noise: its int marker is -1)
     if t == 'corr' and rng.random() < 0.25:
         # large codes that lie close together (ids, timestamps): the spread is tiny next to the magnitude, the source is NOT constant
         d['low'] = rng.choice([250_000, 4_000_000, 10 ** 8, 2 ** 30])
